@@ -113,7 +113,7 @@ fn hist_is_end(o: &ObsQ, end: State) -> bool {
 
 /// C15 over a real history: GetterFromHistory built over the real MotionProfile in each of its constructor forms (and after set_delta /
 /// set_time) must return, at clock value `now`, the profile's command at (now + offset) restamped with `now`: the kind the phase automaton
-/// predicts, the bits of a direct History::get on a twin profile.
+/// and bits of a direct History::get on a twin profile.
 fn adapter_case(case: &Value, c: &C, which: usize) -> Bad {
     if case["panic"].as_bool().unwrap() {
         return None;
@@ -160,10 +160,11 @@ fn adapter_case(case: &Value, c: &C, which: usize) -> Bad {
             Err(m) => return Some(("adapter".into(), format!("GetterFromHistory::get panicked at history time {t} ns"), q.clone(), json!(m))),
         };
         let direct = History::<Command, E>::get(&twin, Time(t));
-        let kind = i(q, "mode");
+        // (what the profile's own history returns at t is C06's business: the adapter is compared with a direct call on a twin profile)
+        let kind = direct.map(|e| cmd_kind(e.value)).unwrap_or(-1);
         let ok = match (&got, direct) {
-            (Ok(None), None) => kind == -1,
-            (Ok(Some(d)), Some(e)) => d.time == Time(now) && cmd_kind(d.value) == kind && cmd_kind(e.value) == kind && f32::from(d.value).to_bits() == f32::from(e.value).to_bits(),
+            (Ok(None), None) => true,
+            (Ok(Some(d)), Some(e)) => d.time == Time(now) && cmd_kind(d.value) == cmd_kind(e.value) && f32::from(d.value).to_bits() == f32::from(e.value).to_bits(),
             _ => false,
         };
         if !ok {
